@@ -59,7 +59,7 @@ PROPS = {
           'Non-trivial = at least one composite node (or a fallback) and at least one non-OK outcome; distinct = distinct (tree, outcomes, chain) rendering.',
   'quick': {'cases': 6400, 'max_size': 200, 'exhaustive': True, 'wall_s': 900},
   'thorough': {'cases': 200000, 'max_size': 300, 'exhaustive': True, 'wall_s': 3000},
-  'essential_classes': ['rule-with-status-message', 'clone-of-policy-with-fallback', 'rule-without-verdict', 'end:error', 'end:OK', 'end:NA', 'end:FAIL', 'policies-evaluated:4', 'chain-length:3', 'depth:3'],
+  'essential_classes': ['wrapper:verifyWithPolicy', 'rule-with-status-message', 'clone-of-policy-with-fallback', 'rule-without-verdict', 'end:error', 'end:OK', 'end:NA', 'end:FAIL', 'policies-evaluated:4', 'chain-length:3', 'depth:3'],
   'assumptions': ['reference interpreter reflects the documented semantics'],
  }, 'C12': {
   'technique': 'coverage-guided fuzzing (libFuzzer, ASan/UBSan) + rapidcheck structure-aware TLV mutation, with per-case allocation accounting',
@@ -109,7 +109,7 @@ PROPS = {
           'level overflow). Non-trivial = structural parse succeeded and (some condition violated, or consistent with >= 2 chains or a calendar chain); distinct = distinct (shape, mutation list, violated set).',
   'quick': {'cases': 32000, 'max_size': 300, 'wall_s': 900},
   'thorough': {'cases': 160000, 'max_size': 400, 'wall_s': 3000, 'fuzz': {'runs': 120000, 'max_len': 1500, 'jobs': 16}},
-  'essential_classes': ['mut:time-or-index-plus-multiple-of-2^32', 'expect:OK', 'expect:single-violation', 'expect:multi-violation', 'not-computable', 'violated:INT-1', 'violated:INT-2', 'violated:INT-3', 'violated:INT-4', 'violated:INT-5', 'violated:INT-5-shape-impossible',
+  'essential_classes': ['metadata:child-with-16-bit-header-and-flags', 'mut:time-or-index-plus-multiple-of-2^32', 'expect:OK', 'expect:single-violation', 'expect:multi-violation', 'not-computable', 'violated:INT-1', 'violated:INT-2', 'violated:INT-3', 'violated:INT-4', 'violated:INT-5', 'violated:INT-5-shape-impossible',
                         'violated:INT-6', 'violated:INT-7', 'violated:INT-8', 'violated:INT-9', 'violated:INT-10', 'violated:INT-11', 'violated:INT-12', 'violated:INT-13', 'violated:INT-14', 'violated:INT-15', 'violated:INT-17'],
   'assumptions': ['reference evaluation reflects the KSI consistency conditions', 'byte-level mutations of the serialization are covered by C10/C12, not here'],
  }, 'C02': {
@@ -123,7 +123,8 @@ PROPS = {
           'Non-trivial = a hash deviation or a non-zero level; distinct = distinct (API, policy, deviation, bit bucket, level, L0, algorithm).',
   'quick': {'cases': 25600, 'max_size': 200, 'exhaustive': True, 'wall_s': 900},
   'thorough': {'cases': 256000, 'max_size': 300, 'exhaustive': True, 'wall_s': 3000},
-  'essential_classes': ['context:verified-cleaned-verified-again', 'ctx:signature-member-points-to-another-signature', 'deviation:bit-flip', 'deviation:other-alg-same-digest', 'deviation:other-alg', 'deviation:level', 'deviation:level>255', 'deviation:combined', 'no-deviation', 'api:verifyWithPolicy+context', 'api:verifyDataHash', 'api:verifyDocument', 'policy:general', 'policy:key', 'ctx-split:level-in-context', 'ctx-split:hash-in-context'],
+  'sim': ['simsock', 'fakecurl', 'simclock'],
+  'essential_classes': ['verifyDocument:publication-anchored', 'deviation:empty-document', 'context:verified-cleaned-verified-again', 'ctx:signature-member-points-to-another-signature', 'deviation:bit-flip', 'deviation:other-alg-same-digest', 'deviation:other-alg', 'deviation:level', 'deviation:level>255', 'deviation:combined', 'no-deviation', 'api:verifyWithPolicy+context', 'api:verifyDataHash', 'api:verifyDocument', 'policy:general', 'policy:key', 'ctx-split:level-in-context', 'ctx-split:hash-in-context'],
   'assumptions': ['reference builder produces consistent signatures (checked per case with the reference evaluation)'],
  }, 'C07': {
   'technique': 'model-based property testing (rapidcheck): reference aggregator with a deviation catalogue behind simulated TCP/HTTP transports; returned signatures decoded and evaluated by the reference model',
@@ -152,7 +153,7 @@ PROPS = {
   'quick': {'cases': 19200, 'max_size': 200, 'exhaustive': True, 'wall_s': 900},
   'thorough': {'cases': 96000, 'max_size': 300, 'exhaustive': True, 'wall_s': 3000},
   'sim': ['simsock', 'fakecurl', 'simclock'],
-  'essential_classes': ['history:credentials-replaced:new-key-is-prefix-of-old', 'request:enclose', 'request:untrusted-alg', 'unmodified', 'altered:rejected', 'path:parse+verify', 'path:blocking-client', 'path:async-service', 'kind:aggregation', 'kind:extension', 'kind:aggr-config', 'kind:ext-config', 'pdu:v1', 'pdu:v2', 'keylen:64', 'keylen:128', 'keylen:129'],
+  'essential_classes': ['async:login-in-uri-key-explicit', 'history:credentials-replaced:new-key-is-prefix-of-old', 'request:enclose', 'request:untrusted-alg', 'unmodified', 'altered:rejected', 'path:parse+verify', 'path:blocking-client', 'path:async-service', 'kind:aggregation', 'kind:extension', 'kind:aggr-config', 'kind:ext-config', 'pdu:v1', 'pdu:v2', 'keylen:64', 'keylen:128', 'keylen:129'],
   'assumptions': ['reference HMAC correct (known-answer vectors)'],
  }, 'C08': {
   'technique': 'model-based property testing (rapidcheck): reference extender over a coherent simulated calendar with a reply-deviation catalogue; results decoded and evaluated by the reference model',
@@ -181,7 +182,7 @@ PROPS = {
   'quick': {'cases': 48000, 'max_size': 120, 'wall_s': 600},
   'thorough': {'cases': 160000, 'max_size': 150, 'wall_s': 2400},
   'sim': ['simsock', 'fakecurl', 'simclock'],
-  'essential_classes': ['split:port-absent', 'async-http:second-request-after-the-first-came-back', 'fragment:with-question-mark', 'path:percent-encoded', 'scheme:ksi', 'scheme:ksi+http', 'scheme:ksi+https', 'scheme:ksi+tcp', 'scheme:file', 'scheme:http', 'scheme:x-unknown', 'embedded-credentials', 'mixed-case-scheme', 'host:ipv6', 'port:boundary', 'async-refusal',
+  'essential_classes': ['host:ipv6-with-dotted-ipv4-tail', 'split:port-absent', 'async-http:second-request-after-the-first-came-back', 'fragment:with-question-mark', 'path:percent-encoded', 'scheme:ksi', 'scheme:ksi+http', 'scheme:ksi+https', 'scheme:ksi+tcp', 'scheme:file', 'scheme:http', 'scheme:x-unknown', 'embedded-credentials', 'mixed-case-scheme', 'host:ipv6', 'port:boundary', 'async-refusal',
                         'service:blocking-aggregator', 'service:blocking-extender', 'service:async-signing', 'service:async-extending', 'explicit:U-', 'explicit:-K', 'explicit:UK', 'explicit:--'],
   'assumptions': ['ports are generated as canonical decimals; percent-encoding in user-info is not generated'],
  }, 'C13': {
@@ -197,7 +198,7 @@ PROPS = {
   'quick': {'cases': 19200, 'max_size': 300, 'exhaustive': True, 'wall_s': 1200},
   'thorough': {'cases': 96000, 'max_size': 400, 'exhaustive': True, 'wall_s': 3400},
   'sim': ['simsock', 'fakecurl', 'simclock'],
-  'essential_classes': ['op:resize-cache', 'resize-cache:while-full', 'http:response-body-with-several-pdus', 'backend:http', 'http:transfer-faults', 'http:request-after-failed-transfer', 'http:cache-full', 'add:accepted', 'add:cache-full', 'returned:response', 'returned:error', 'op:stale', 'op:early-reply', 'early-reply-queued', 'stale-reply-queued', 'op:close', 'op:reset', 'op:refuse-next', 'op:advance', 'op:block-send', 'closed-inside-a-pdu', 'push-config-delivered', 'cache-size:5+'],
+  'essential_classes': ['http:two-services-on-one-context', 'op:resize-cache', 'resize-cache:while-full', 'http:response-body-with-several-pdus', 'backend:http', 'http:transfer-faults', 'http:request-after-failed-transfer', 'http:cache-full', 'add:accepted', 'add:cache-full', 'returned:response', 'returned:error', 'op:stale', 'op:early-reply', 'early-reply-queued', 'stale-reply-queued', 'op:close', 'op:reset', 'op:refuse-next', 'op:advance', 'op:block-send', 'closed-inside-a-pdu', 'push-config-delivered', 'cache-size:5+'],
   'assumptions': ['simulated socket semantics as documented in sim/simnet.hpp'],
  }, 'C14': {
   'technique': 'metamorphic property testing (rapidcheck + exhaustive split points): chunked vs unchunked delivery over simulated sockets, request-stream integrity, faults at generated byte offsets',
@@ -236,7 +237,7 @@ PROPS = {
   'quick': {'cases': 6400, 'max_size': 300, 'wall_s': 900},
   'thorough': {'cases': 64000, 'max_size': 400, 'wall_s': 3000, 'fuzz': {'runs': 40000, 'max_len': 1500, 'jobs': 16}},
   'sim': ['simsock', 'fakecurl', 'simclock'],
-  'essential_classes': ['modified-in-place:chain-prepended', 'shared-verification-context:signature-member-left-over', 'log:debug-with-failing-logger', 'derive:extend-to-borrowed-record', 'verify:with-user-publications-file', 'shared-verification-context', 'pool:unknown-extension-elements', 'pool:consistent', 'pool:inconsistent', 'pool:legacy', 'history:verifies-with-different-outcomes', 'history:with-derive-operation', 'derive:extended', 'derive:root-level', 'derive:prepended', 'both-cache-configurations'],
+  'essential_classes': ['policy:user-composed-from-exported-rules', 'modified-in-place:chain-prepended', 'shared-verification-context:signature-member-left-over', 'log:debug-with-failing-logger', 'derive:extend-to-borrowed-record', 'verify:with-user-publications-file', 'shared-verification-context', 'pool:unknown-extension-elements', 'pool:consistent', 'pool:inconsistent', 'pool:legacy', 'history:verifies-with-different-outcomes', 'history:with-derive-operation', 'derive:extended', 'derive:root-level', 'derive:prepended', 'both-cache-configurations'],
   'assumptions': ['reference extender is stateless, so fresh-context verifications see the same server behaviour'],
  },
  'C10': {
@@ -297,7 +298,7 @@ PROPS = {
   'quick': {'cases': 32000, 'max_size': 300, 'exhaustive': False, 'wall_s': 900},
   'thorough': {'cases': 600000, 'max_size': 400, 'exhaustive': False, 'wall_s': 3400},
   'sim': ['simsock', 'fakecurl', 'simclock'],
-  'essential_classes': ['time:year-2100-or-later', 'extender:aggr-time-omitted', 'policy:user-publication', 'policy:publications-file', 'policy:key', 'policy:calendar', 'policy:general', 'bound:reported-OK', 'observed:OK', 'observed:FAIL', 'observed:NA',
+  'essential_classes': ['extender:request-echoed-around-unauthenticated-response', 'time:year-2100-or-later', 'extender:aggr-time-omitted', 'policy:user-publication', 'policy:publications-file', 'policy:key', 'policy:calendar', 'policy:general', 'bound:reported-OK', 'observed:OK', 'observed:FAIL', 'observed:NA',
                         'expect:FAIL:extension-contradicts', 'expect:FAIL:calendar-contradicts', 'expect:FAIL:same-time-other-hash', 'expect:FAIL:file-has-other-hash-for-that-time', 'expect:FAIL:certificate-not-valid-at-aggregation-time,',
                         'expect:FAIL:pki-signature-invalid,', 'expect:inconclusive:extension-failed', 'expect:inconclusive:extending-forbidden', 'expect:inconclusive:publications-file-unavailable',
                         'expect:inconclusive:certificate-not-listed', 'expect:never-ok(internal)', 'extender-contacted', 'publications-file-downloaded', 'extender:error-status-with-chain', 'auth-sig:arbitrary-octets/ec', 'auth-sig:trailing-octet/ec', 'auth-sig:valid/ec', 'auth-sig:cut/rsa'],
